@@ -123,10 +123,20 @@ def gen_cases(tier, seed, gen, effort):
             atoms.append(("id", rnd.choice(NAMES)))     # possibly undefined
         t = rand_tree(rnd, rnd.randint(1, 5), atoms)
         cases.append({"text": render(t, 2, rnd.choice([0, 0, 1, 2, 3]), rnd), "dets": dets})
+    # ---- the same condition text parsed twice in one process against different detection sets (parse results are
+    # cached per text: the second rule must get its own resolution)
+    for _ in range((400 if not thorough else 4000) * effort):
+        k = rnd.randint(2, 5)
+        dets = rnd.sample(NAMES, k)
+        first = rnd.sample(dets, rnd.randint(1, k)) + rnd.sample(NAMES, rnd.randint(0, 2))
+        rnd.shuffle(first)
+        atoms = [("id", n) for n in dets[:2]] + [("sel", rnd.choice(["1", "any", "all"]), rnd.choice(PATTERNS + ["them"])) for _ in range(2)]
+        t = rand_tree(rnd, rnd.randint(2, 5), atoms)
+        cases.append({"text": render(t, 2, 0), "dets": dets, "first": list(dict.fromkeys(first))})
     # dedupe
     seen, out = set(), []
     for c in cases:
-        key = (c["text"], tuple(c["dets"]))
+        key = (c["text"], tuple(c["dets"]), tuple(c.get("first", ())))
         if key not in seen:
             seen.add(key); out.append(c)
     return out, True
@@ -137,6 +147,12 @@ def run_impl(case):
     from sigma.conditions import (ConditionOR, ConditionAND, ConditionNOT, ConditionValueExpression,
                                   ConditionFieldEqualsValueExpression)
     dets = case["dets"]
+    if case.get("first"):
+        try:
+            f = SigmaDetections.from_dict({**{n: [f"m{i}"] for i, n in enumerate(case["first"])}, "condition": case["text"]})
+            f.parsed_condition[0].parsed
+        except Exception:
+            pass
     try:
         d = SigmaDetections.from_dict({**{n: [f"m{i}"] for i, n in enumerate(dets)}, "condition": case["text"]})
         tree = d.parsed_condition[0].parsed
@@ -226,6 +242,9 @@ def judge(case, impl, reply):
                (mo in ("parse_error", "undefined") and impl_rej)
         if not same:
             return Verdict("drift", f"model {mo} vs impl {io} on {case['text']!r}", nt, key, tags=tags)
+    if status == "violation" and case.get("first"):
+        what += f" (second parse of this text in the process; it was first parsed for a rule with detections {case['first']})"
+        tags += ("repeated-parse",)
     return Verdict(status, what, nt, key, tags=tags)
 
 
